@@ -416,6 +416,12 @@ Proof.
 Qed.
 
 (* ---------- 5. delete ---------- *)
+Lemma filter_all_true {A} (f : A -> bool) l : (forall x, In x l -> f x = true) -> filter f l = l.
+Proof.
+  induction l as [|a l IH]; intros H; cbn [filter]; [reflexivity|].
+  rewrite (H a (or_introl eq_refl)). f_equal. apply IH. intros x Hx. apply H. right. exact Hx.
+Qed.
+
 Lemma rm_del_mapf k mm l :
   NoDup (map fst mm) ->
   map (fun x => (x, valof (map_del k mm) x)) (filter (fun x => negb (beqb k x)) l) =
@@ -453,7 +459,7 @@ Proof.
       rewrite sort_keys_sorted_id; [|apply ssorted_filter; exact Hss].
       apply rm_del_mapf. exact Hmnd.
   - split; [exact Hinv'|]. split; [|reflexivity]. fold (ensure_sorted s). rewrite Href', smap_ref_eq.
-    unfold rm_del. symmetry. apply forallb_filter_id. apply forallb_forall.
+    unfold rm_del. symmetry. apply filter_all_true.
     intros [x w] Hx. apply in_map_iff in Hx as [y [Hy Hyin]]. inversion Hy; subst x w. cbn [fst].
     destruct (beqb k y) eqn:Ey; [|reflexivity]. apply beqb_eq in Ey. subst y.
     apply existsb_beqb_in in Hyin. congruence.
